@@ -8,9 +8,16 @@ package main
 
 import (
 	"context"
+	"fmt"
+	"os"
+	"runtime"
 	"sort"
 	"sync"
+	"sync/atomic"
 	"time"
+
+	ocontext "github.com/orda-io/orda/client/pkg/context"
+	"github.com/orda-io/orda/server/constants"
 
 	"github.com/orda-io/orda/client/pkg/model"
 )
@@ -119,6 +126,51 @@ func (s *sgen) parallelRound(clients []int) bool {
 	return false
 }
 
+// stepLockStress: the lock the server takes per (collection, key) must exclude its holders also on the very first
+// use of a name (when the lock object is created): `rounds` fresh names, `n` goroutines released together on each.
+func (w *sworld) stepLockStress(caseID, rounds, n int) (J, J, bool) {
+	obs := J{}
+	hung := guarded(obs, func() {
+		var overlaps, refused, lost int64
+		for r := 0; r < rounds; r++ {
+			name := fmt.Sprintf("LS:%d:%d:%d", os.Getpid(), caseID, r)
+			var inside, counter int64
+			start := make(chan struct{})
+			var wg sync.WaitGroup
+			wg.Add(n)
+			for g := 0; g < n; g++ {
+				go func() {
+					defer wg.Done()
+					cctx, cancel := context.WithCancel(context.Background())
+					defer cancel()
+					octx := ocontext.NewOrdaContext(cctx, constants.TagTest)
+					<-start
+					l := w.kit.Mgrs.GetLock(octx, name)
+					if !l.TryLock() {
+						atomic.AddInt64(&refused, 1)
+						return
+					}
+					if atomic.AddInt64(&inside, 1) > 1 {
+						atomic.AddInt64(&overlaps, 1)
+					}
+					c := atomic.LoadInt64(&counter) // unsynchronised read-modify-write, protected by the lock only
+					runtime.Gosched()
+					atomic.StoreInt64(&counter, c+1)
+					atomic.AddInt64(&inside, -1)
+					l.Unlock()
+				}()
+			}
+			close(start)
+			wg.Wait()
+			if counter != int64(n)-atomic.LoadInt64(&refused) && atomic.LoadInt64(&refused) == 0 {
+				lost++
+			}
+		}
+		obs["overlaps"], obs["refused"], obs["lostUpdates"] = overlaps, refused, lost
+	})
+	return J{"k": "lockstress", "rounds": rounds, "goroutines": n}, obs, hung
+}
+
 func runParProfile(seed uint64, cases int, out func(cmd, obs J), statsPath string) {
 	r := &rng{s: seed*0x9e3779b97f4a7c15 + 1212}
 	stats := map[string]int{}
@@ -139,6 +191,9 @@ func runParProfile(seed uint64, cases int, out func(cmd, obs J), statsPath strin
 		out(J{"k": "scase", "id": c, "profile": "par"}, J{})
 		stats["scase"]++
 		ok := !s.emit(s.w.stepMkCol("cola"))
+		if ok {
+			ok = !s.emit(s.w.stepLockStress(c, 150, 8))
+		}
 		ncli := 2 + r.intn(15)
 		if ncli > 16 {
 			ncli = 16
